@@ -135,7 +135,13 @@ func (p *c02) build(c fw.Case, r *fw.Rec) pairBuild {
 		switch sel := rnd.Intn(21); sel {
 		case 0, 20: // literals
 			r.Cover("construct:literal")
-			switch rnd.Intn(6) {
+			switch rnd.Intn(8) {
+			case 6: // a literal takes the type of the variable it is assigned to
+				add(fmt.Sprintf("\t{\n\t\tvar fl []float64\n\t\tvar mf map[string]float64\n\t\tfl = [1, %d]\n\t\tmf = {\"k\": %d}\n\t\tshow \"literal/assigned-to-typed-variable\", %d, fl, mf\n\t}\n", k, k, k),
+					fmt.Sprintf("\t{\n\t\tvar fl []float64\n\t\tvar mf map[string]float64\n\t\tfl = []float64{1, %d}\n\t\tmf = map[string]float64{\"k\": %d}\n\t\tshow(\"literal/assigned-to-typed-variable\", %d, fl, mf)\n\t}\n", k, k, k))
+			case 7: // … also in an assignment to several variables of different types
+				add(fmt.Sprintf("\t{\n\t\tvar fl []float64\n\t\tvar is []int\n\t\tvar mf map[string]float64\n\t\tvar ss []string\n\t\tfl, is = [1, %d], [tr(%d)]\n\t\tmf, ss, fl = {\"k\": %d}, [\"q\"], [2]\n\t\tshow \"literal/assigned-to-typed-variables\", %d, fl, is, mf, ss\n\t}\n", k, k, k, k),
+					fmt.Sprintf("\t{\n\t\tvar fl []float64\n\t\tvar is []int\n\t\tvar mf map[string]float64\n\t\tvar ss []string\n\t\tfl, is = []float64{1, %d}, []int{tr(%d)}\n\t\tmf, ss, fl = map[string]float64{\"k\": %d}, []string{\"q\"}, []float64{2}\n\t\tshow(\"literal/assigned-to-typed-variables\", %d, fl, is, mf, ss)\n\t}\n", k, k, k, k))
 			case 0:
 				l := intsLit(rnd, rnd.Range(1, 4))
 				add(fmt.Sprintf("\tshow \"literal/list-int\", %d, [%s, tr(7)]\n", k, joinInts(l)), fmt.Sprintf("\tshow(\"literal/list-int\", %d, []int{%s, tr(7)})\n", k, joinInts(l)))
